@@ -5,7 +5,7 @@ cd /verif
 LANES=${1:-3}
 OUT=/tmp/seedall_summary.txt
 : > $OUT
-seeds=$(ls seeded | sort)
+seeds=$(for d in $(ls seeded | sort); do grep -q '"retired"' seeded/$d/meta.json 2>/dev/null || echo $d; done)
 run_lane() {
   for s in "$@"; do
     p=${s%%_*}
